@@ -7,7 +7,7 @@
 From Coq Require Import List NArith Bool.
 From Verif Require Import lib.Quote model.ExSyntax model.ExLexer model.ExParser model.ExPrinter model.ExScanner
   model.ExRefactor model.ExTemplate proofs.ExPrintProofs proofs.ExRoundtrip proofs.ExScannerProofs
-  proofs.ExRefactorProofs proofs.ExRender proofs.ExParserTotal proofs.ExGlue proofs.ExTreeWf proofs.ExC11.
+  proofs.ExRefactorProofs proofs.ExRender proofs.ExParserTotal proofs.ExGlue proofs.ExTreeWf proofs.ExTokName proofs.ExC11.
 Import ListNotations.
 Open Scope N_scope.
 
@@ -137,21 +137,21 @@ Print Assumptions c11_rename_reparse.
 
 (* First sentence, on text, with the side condition stated on the SOURCE tree (this sizes the "partial" of
    c11_roundtrip_partial): for every source text (valid code points) that the models accept, with tree t, if
-     (i)  names_ok lower t: every name the printer writes is a NAME lexeme and no keyword — for context references
-          that is their LOWER-CASED form, for parameters and non-numeric lookups the text as written (those come out
-          of the lexer as NAME tokens), and
+     (i)  refs_ok lower t: the LOWER-CASED name of every context reference is still a NAME lexeme and no keyword, and
      (ii) texts_ok t: no text literal's value ends in a backslash,
    then the printed text lexes, parses to exactly norm t, and prints to the same text again.  Everything else the
-   printer writes — operator and punctuation symbols, numbers after re-rendering, true/false/null, the separating
-   space between numeric lookups (205f8a3) — can never glue: that part is unconditional for the trees the parser
-   builds (parsed_shape: containers are atoms, literals carry lexemes).  (i) fails for the Cherokee witness, (ii) for
-   the backslash witness of c11_roundtrip_refuted (Example source_conditions_witness), i.e. exactly the two known
-   findings; (ii) is slightly stronger than necessary (a value ending in a backslash is harmless when no quote
-   follows it in the printed text). *)
+   printer writes can never glue, for the trees the parser builds from the lexer's tokens: operator and punctuation
+   symbols, numbers after re-rendering, true/false/null, the separating space between numeric lookups (205f8a3),
+   and the names copied from the source — parameters of anonymous functions and non-numeric lookups are NAME
+   tokens, hence names and no keywords (proofs/ExTokName.v: had the text been true/false/null, that earlier rule of
+   the same length would have won) — and containers of lookups and calls are atoms, literals carry lexemes
+   (proofs/ExTreeWf.v).  (i) fails for the Cherokee witness, (ii) for the backslash witness of
+   c11_roundtrip_refuted (Example source_conditions_witness), i.e. exactly the two known findings; (ii) is slightly
+   stronger than necessary (a value ending in a backslash is harmless when no quote follows it in the printed text). *)
 Theorem c11_roundtrip_source : forall (lower : N -> N) (printable : N -> bool) inp ts t,
   printable 10 = false -> (forall c, lower (lower c) = lower c) -> valid_codepoints inp ->
   lex inp = LOk ts -> parse_tokens ts = POk t ->
-  names_ok lower t = true -> texts_ok t = true ->
+  refs_ok lower t = true -> texts_ok t = true ->
   exists ts', lex (print lower printable t) = LOk ts'
               /\ parse_tokens ts' = POk (norm lower t)
               /\ print lower printable (norm lower t) = print lower printable t.
